@@ -21,7 +21,7 @@ from checks.common import PoolCheck, jcopy, short
 from pool.pool import schema_class
 from pool import families
 
-STEPS = ('use', 'use', 'build_again', 'clear_build', 'copy', 'pickle', 'maps_copy', 'failed_load_namespace')
+STEPS = ('use', 'use', 'build_again', 'clear_build', 'copy', 'pickle', 'maps_copy', 'failed_load_namespace', 'maps_copy_build')
 
 BROKEN_XSD = '''<xs:schema xmlns:xs="http://www.w3.org/2001/XMLSchema" targetNamespace="urn:broken" xmlns:b="urn:broken">
  <xs:element name="e" type="b:Missing"/>
@@ -72,7 +72,7 @@ class C09(PoolCheck):
     LEVEL = 'exploration'
     GROUP = 1
     CASE_TIMEOUT = 180.0
-    FAMILIES = ('multi', 'multi2', 'chameleon', 'xsitype', 'keys', 'subst', 'fixed', 'ids', 'assert11', 'wild', 'ondemand', 'laxbuilt', 'grouped', 'simple', 'vcond')
+    FAMILIES = ('multi', 'multi2', 'chameleon', 'xsitype', 'keys', 'subst', 'fixed', 'ids', 'assert11', 'wild', 'ondemand', 'laxbuilt', 'grouped', 'simple', 'vcond', 'redefchain')
     RULE = ("case = (family, assembly variant [canonical | list constructor with a permuted order of the extra "
             "sources | build=False + add_schema/import_schema/include_schema in a permuted order + build()], then a "
             "seeded sequence of lifecycle steps [use an operation of the C10 menu, build() again, maps.clear()+build(), "
@@ -243,6 +243,7 @@ class C09(PoolCheck):
         counters = {}
         violations = []
         step_kinds = []
+        junk = []
         stage = 'assembly'
         try:
             try:
@@ -265,6 +266,14 @@ class C09(PoolCheck):
                         a, b = _settings_view(mc), _settings_view(schema.maps)
                         if a != b:
                             raise MapsCopyDiffers(sorted(k for k in set(a) | set(b) if a.get(k) != b.get(k)))
+                    elif stage == 'maps_copy_build':
+                        # the history goes on with the copy of the maps, built: what the copy registers in which order
+                        # follows the addresses of the schema objects, so the heap is given a seeded shape first
+                        junk.append([object() for _ in range((case['hashseed'] * 37 + len(junk)) % 101)])
+                        mc = schema.maps.copy()
+                        junk.append(schema)
+                        mc.build()
+                        schema = mc.validator
                     elif stage == 'pickle':
                         schema = pickle.loads(pickle.dumps(schema))
                     elif stage == 'failed_load_namespace':
